@@ -37,8 +37,22 @@ class ColumnLineageMixin:
             target_columns = {
                 node for node in target_columns if isinstance(node.parent, Table)
             }
+            # a table column that is only read further by SubQuery columns leading nowhere is where the pruned
+            # path ends, otherwise the lineage into that table column would be lost altogether
+            target_columns |= {
+                node
+                for node, deg in column_graph.out_degree
+                if deg > 0
+                and isinstance(node.parent, Table)
+                and not any(
+                    isinstance(descendant.parent, Table)
+                    for descendant in nx.descendants(column_graph, node)
+                )
+            }
         columns = set()
         for source, target in itertools.product(source_columns, target_columns):
+            if source == target:
+                continue
             simple_paths = list(nx.all_simple_paths(self.graph, source, target))
             for path in simple_paths:
                 if exclude_subquery_columns:
